@@ -33,3 +33,54 @@ package solver
 //@     invariant idx: 0 <= rangei && rangei <= len(lits) && len(negated) == len(lits)
 //@     invariant neg: forall(k, 0, rangei, negated[k] == -lits[k])
 //@     invariant fresh: fresh(negated)
+
+// ---------------------------------------------------------------- cutting planes rules (C14)
+
+//@ define pbval(pb *pbSet, A asg) bool = vsum(pb.weights, A, len(pb.weights)) >= pb.card
+
+//@ func (*pbSet).clash
+//@   ghost A asg
+//@   requires nn:   pb1 != nil && pb2 != nil && pb1 != pb2
+//@   requires sep:  arr(pb1.weights) != arr(pb2.weights)
+//@   requires lens: len(pb1.weights) == len(pb2.weights)
+//@   modifies pb1.card, pb1.weights[*]
+//@   ensures  sound: old(pbval(pb1, A)) && old(pbval(pb2, A)) ==> pbval(pb1, A)
+//@   ensures  frame2: pb2.card == old(pb2.card) && forall(k, 0, len(pb2.weights), pb2.weights[k] == old(pb2.weights[k]))
+//@   loop 1
+//@     invariant idx:   0 <= rangei && rangei <= len(pb1.weights)
+//@     invariant rest:  forall(k, rangei, len(pb1.weights), pb1.weights[k] == old(pb1.weights[k]))
+//@     invariant sum:   vsum(pb1.weights, A, rangei) - pb1.card == old(vsum(pb1.weights, A, rangei)) + vsum(pb2.weights, A, rangei) - old(pb1.card) - pb2.card
+
+//@ func (*pbSet).divideBy
+//@   ghost A asg
+//@   requires nn:    pb != nil
+//@   requires coeff: coeff >= 1
+//@   requires card:  pb.card >= 0
+//@   modifies pb.card, pb.weights[*]
+//@   ensures  sound: old(pbval(pb, A)) ==> pbval(pb, A)
+//@   ensures  card:  pb.card >= 0
+//@   ensures  shape: len(pb.weights) == old(len(pb.weights))
+//@   ensures  one:   forall(k, 0, len(pb.weights), absi(old(pb.weights[k])) == coeff ==> absi(pb.weights[k]) == 1)
+//@   loop 1
+//@     invariant idx:   0 <= rangei && rangei <= len(pb.weights)
+//@     invariant rest:  forall(k, rangei, len(pb.weights), pb.weights[k] == old(pb.weights[k]))
+//@     invariant one:   forall(k, 0, rangei, absi(old(pb.weights[k])) == coeff ==> absi(pb.weights[k]) == 1)
+//@     invariant sum:   coeff * vsum(pb.weights, A, rangei) >= old(vsum(pb.weights, A, rangei))
+//@     invariant card:  pb.card == old(pb.card)
+
+//@ func (*pbSet).roundToOne
+//@   ghost A asg
+//@   requires nn:     pb != nil && s != nil
+//@   requires idx:    0 <= locked && locked < len(pb.weights) && len(s.model) >= len(pb.weights)
+//@   requires sep:    arr(s.model) != arr(pb.weights)
+//@   requires locked: pb.weights[locked] != 0
+//@   requires cardOK: pb.card - rsum(pb.weights, s.model, absi(pb.weights[locked]), len(pb.weights)) >= 0
+//@   modifies pb.card, pb.weights[*]
+//@   ensures  sound:  old(pbval(pb, A)) ==> pbval(pb, A)
+//@   ensures  one:    absi(pb.weights[locked]) == 1
+//@   loop 1
+//@     invariant idx:   0 <= rangei && rangei <= len(pb.weights) && wi == absi(old(pb.weights[locked])) && wi > 1
+//@     invariant rest:  forall(k, rangei, len(pb.weights), pb.weights[k] == old(pb.weights[k]))
+//@     invariant lock:  absi(pb.weights[locked]) == wi
+//@     invariant card:  pb.card == old(pb.card) - old(rsum(pb.weights, s.model, wi, rangei))
+//@     invariant sum:   vsum(pb.weights, A, rangei) - pb.card >= old(vsum(pb.weights, A, rangei)) - old(pb.card)
